@@ -17,7 +17,7 @@ def check(pid):
 
 ALL_FIELDS = ["init", "len", "empty", "cap", "avail", "full", "kind", "fifo", "idx", "front",
               "back", "bits", "ronly", "paren", "padded", "cannest", "nesting", "err", "canmtx",
-              "id", "cat", "delim", "sym", "enc", "isenc", "elems", "integ", "locked"]
+              "id", "cat", "delim", "sym", "enc", "isenc", "elems", "integ", "locked", "valid", "strsrc", "eqsrc", "umsrc"]
 
 SM_DEFAULT = dict(Vals=["nil", "a", "b"], MaxLen=3, Caps=[0], Kinds=["AND"], InitOpts=[[]], InitMtx=[False],
                   Fams=["list"], OptFlags=[], PushLens=[1, 2], DstCaps=[0], DstOps=["push", "pop"], IdxMode="existing",
@@ -469,7 +469,7 @@ C03_FIELDS = ["init", "len", "cap", "avail", "full", "elems", "integ", "locked"]
 def c03(work, v, tier):
     q = tier == "quick"
     tables = [("cap", dict(Caps=[1, 2, 3], MaxLen=3, Fams=["list", "marshal"], depth=2, walks=300, wlen=50)),
-              ("xfer", dict(Caps=[1, 2, 3], Vals=["nil", "a"], MaxLen=3, Fams=["grow", "transfer", "marshal"],
+              ("xfer", dict(Caps=[1, 2, 3], Vals=["nil", "a"], MaxLen=3, Fams=["grow", "transfer"],
                             DstCaps=[0], DstOps=["push", "pop"], depth=2, walks=300, wlen=50)),
               ("cap-pol", dict(Caps=[1, 2], Vals=["nil", "a"], MaxLen=2, Fams=["grow", "policy", "marshal"], PushLens=[1, 2, 3], depth=2, walks=200, wlen=40)),
               ("nocap", dict(Caps=[0], MaxLen=3, Vals=["nil", "a"], Kinds=["AND", "LIST", "BASIC"], Fams=["grow", "marshal"], depth=2, walks=50))]
@@ -587,7 +587,7 @@ def c13(work, v, tier):
                     ctraces=[("rand", dict(traces=200 if q else 2000, len=50, fields=["init", "ex", "nesting", "cannest", "bits", "len"]))])
 
 
-C14_FIELDS = ["init", "len", "elems", "err", "integ"]
+C14_FIELDS = ["init", "len", "elems", "err", "integ", "valid", "strsrc", "eqsrc", "umsrc", "kind"]
 
 
 @check("C14")
@@ -595,11 +595,22 @@ def c14(work, v, tier):
     q = tier == "quick"
     tables = [("policy", dict(Caps=[0, 1, 2], Vals=["nil", "a", "b"], MaxLen=3, Fams=["grow", "policy"], PushLens=[1, 2, 3],
                               depth=2, walks=300 if q else 3000, wlen=40))]
-    traces = [("rand", dict(traces=200 if q else 2000, len=60, fams=["list", "policy"], nvals=5, caps="0,1,2,3,5"))]
+    tables.append(("closures", dict(Caps=[0], Kinds=["AND", "OR", "NOT", "LIST", "BASIC"], Vals=["a"], MaxLen=1, PushLens=[1], InitOpts=[[], ["paren"]],
+                                    Fams=["closures", "grow", "marshal"], depth=2, walks=300 if q else 3000, wlen=40)))
+    tables.append(("cond-closures", dict(machine="cond", KwArgs=["k", ""], OpArgs=["Eq", "nil"], ExArgs=["nil", "s:v", "S"],
+                                         CFams=["set", "closures", "life"], COptFlags=[], depth=2, walks=200 if q else 2000)))
+    traces = [("rand", dict(traces=200 if q else 2000, len=60, fams=["list", "policy"], nvals=5, caps="0,1,2,3,5")),
+              ("closures", dict(traces=200 if q else 2000, len=60, fams=["list", "closures", "marshal", "opts"], nvals=4, salt=3))]
     return sm_check(work, v, "C14", tier, tables, traces, C14_FIELDS,
-                    ["StepProps: PolicyDecides (nothing rejected is stored; consult log <= offered; a full stack is never consulted; Err set only after a rejection)"],
+                    ["StepProps: PolicyDecides (nothing rejected is stored; consult log <= offered; a full stack is never consulted; Err set only after a rejection)",
+                     "ClosuresDecide (Valid reports an error exactly when the validity closure does; a rejected stack renders empty; removing a closure restores the "
+                     "built-in behaviour; BASIC refuses a presentation policy, records an error, renders empty)"],
                     "push policy: all batches of length 1-3 over {nil,a,b} against every accept-set (all 8 subsets) with and without capacity; "
-                    "the Go closure records its consult log, which is part of the compared return value (count and order)")
+                    "the Go closure records its consult log, which is part of the compared return value (count and order). Other closures: every install / remove "
+                    "sequence (depth 2 exhaustive, random longer) of validity (approving / rejecting), presentation, equality, unmarshal and marshal closures on "
+                    "all five kinds (and validity / presentation on Conditions); after every step Valid(), the source of String() (empty / closure / built-in), of "
+                    "IsEqual and of Unmarshal, and Marshal's result are compared",
+                    ctraces=[("rand", dict(traces=200 if q else 2000, len=50, fields=["init", "valid", "str", "err", "kw", "op", "ex"]))])
 
 
 C15_FIELDS = ["init", "len", "elems", "cap", "ronly", "err", "integ", "fifo", "bits"]
